@@ -44,15 +44,16 @@ type source struct {
 	inner  hackpadfs.FS
 	noSeek bool
 
-	mu         sync.Mutex
-	reads      int // Read calls on file handles so far
-	failRead   int // 1-based index of the Read call to fail (0 = none)
-	fired      bool
-	gating     bool
-	arrivals   chan chan struct{} // each gated Read sends its release channel
-	inFlight   int
-	maxFlight  int
-	openFiles  int
+	mu        sync.Mutex
+	reads     int  // Read calls on file handles so far
+	failRead  int  // 1-based index of the Read call to fail (0 = none)
+	sticky    bool // a source that broke stays broken: every later Read and the Close of its handles fail too
+	fired     bool
+	gating    bool
+	arrivals  chan chan struct{} // each gated Read sends its release channel
+	inFlight  int
+	maxFlight int
+	openFiles int
 }
 
 func (s *source) Open(name string) (hackpadfs.File, error) {
@@ -76,7 +77,7 @@ func (f *srcFile) Read(p []byte) (int, error) {
 	s := f.s
 	s.mu.Lock()
 	s.reads++
-	fail := s.failRead > 0 && s.reads == s.failRead
+	fail := s.failRead > 0 && (s.reads == s.failRead || (s.sticky && s.reads > s.failRead))
 	if fail {
 		s.fired = true
 	}
@@ -102,6 +103,17 @@ func (f *srcFile) Read(p []byte) (int, error) {
 	return f.File.Read(p)
 }
 
+func (f *srcFile) Close() error {
+	f.s.mu.Lock()
+	broken := f.s.sticky && f.s.fired && f.s.failRead > 0
+	f.s.mu.Unlock()
+	err := f.File.Close()
+	if broken {
+		return errSource
+	}
+	return err
+}
+
 func (f *srcFile) Seek(off int64, whence int) (int64, error) {
 	return hackpadfs.SeekFile(f.File, off, whence)
 }
@@ -109,8 +121,8 @@ func (f *srcFile) Seek(off int64, whence int) (int64, error) {
 type noSeek struct{ f *srcFile }
 
 func (n noSeek) Stat() (hackpadfs.FileInfo, error) { return n.f.Stat() }
-func (n noSeek) Read(p []byte) (int, error)         { return n.f.Read(p) }
-func (n noSeek) Close() error                       { return n.f.Close() }
+func (n noSeek) Read(p []byte) (int, error)        { return n.f.Read(p) }
+func (n noSeek) Close() error                      { return n.f.Close() }
 
 // ------------------------------------------------------------------ environment
 
@@ -120,6 +132,9 @@ type Case struct {
 	Store   string `json:"store"`
 	NoSeek  bool   `json:"noseek"`
 	Reopens int    `json:"reopens"`
+	// Sticky: whatever breaks stays broken until it is repaired before the re-opens (every later call of the source handle
+	// incl. its Close, or every later store call), instead of one call failing once
+	Sticky bool `json:"sticky,omitempty"`
 }
 
 type env struct {
@@ -198,8 +213,10 @@ func checkFaults(c Case) (string, string, outcome) {
 		e := newEnv(c)
 		if st.kind == "source-read" {
 			e.src.failRead = st.idx
+			e.src.sticky = c.Sticky
 		} else {
 			e.hooks.FailAt = st.idx
+			e.hooks.Sticky = c.Sticky
 		}
 		var data []byte
 		var oerr error
@@ -225,6 +242,7 @@ func checkFaults(c Case) (string, string, outcome) {
 		}
 		// later, fault-free opens
 		e.src.failRead, e.hooks.FailAt = 0, 0
+		e.src.sticky, e.hooks.Sticky = false, false
 		for r := 0; r < c.Reopens; r++ {
 			var d2 []byte
 			var e2 error
@@ -333,6 +351,7 @@ func TestFaults(t *testing.T) {
 			Store:   rapid.SampledFrom([]string{"min", "rw"}).Draw(rt, "store"),
 			NoSeek:  rapid.Bool().Draw(rt, "noseek"),
 			Reopens: rapid.IntRange(1, 3).Draw(rt, "reopens"),
+			Sticky:  rapid.IntRange(0, 2).Draw(rt, "sticky") == 0,
 		}
 		rec.Step(c)
 		sig, msg, out := checkFaults(c)
